@@ -425,6 +425,67 @@ func (s *session) iterRace() string {
 	return res + " ## iter ok"
 }
 
+// getRace (C06): a reader of the latest version looks key k up through the fast index while its index entry
+// is not cached; its storage read is performed and then held back while the writer removes (or rewrites) k
+// and commits the next version. Whatever the reader then does with what it read must not survive the
+// commit: afterwards k is read again through every path of the new version.
+// (On the library as it is the reader holds the nodeDB lock across the read, so the commit waits for it and
+// the gate's patience runs out: the writer's commit then simply comes after the reader.)
+func (s *session) getRace(key []byte, newVal []byte) string {
+	t := s.tree
+	v := t.Version()
+	it, err := t.GetImmutable(v)
+	if err != nil || v == 0 || s.rec == nil {
+		return "skipped"
+	}
+	fkey := append([]byte{'f'}, key...)
+	at := make(chan struct{}, 1)
+	rel := make(chan struct{})
+	s.rec.mu.Lock()
+	s.rec.gateKey, s.rec.gateAt, s.rec.gateRelease, s.rec.gatePatience = fkey, at, rel, 400*time.Millisecond
+	s.rec.mu.Unlock()
+	got := make(chan string, 1)
+	go func() {
+		defer func() {
+			if r := recover(); r != nil {
+				got <- fmt.Sprint("panic ", r)
+			}
+		}()
+		val, err := it.Get(key)
+		if err != nil {
+			got <- "err"
+			return
+		}
+		got <- enc(val)
+	}()
+	gatedRead := false
+	var early string
+	select {
+	case <-at:
+		gatedRead = true
+	case early = <-got:
+		// the reader did not read the index entry from storage (index off, or the entry was cached)
+	case <-time.After(10 * time.Second):
+		return "hang"
+	}
+	var res string
+	if newVal == nil {
+		res = s.exec([]string{"rm", enc(key)})
+	} else {
+		res = s.exec([]string{"set", enc(key), enc(newVal)})
+	}
+	res2 := s.exec([]string{"save"})
+	if gatedRead {
+		close(rel)
+		early = <-got
+	}
+	s.rec.mu.Lock()
+	s.rec.gateKey = nil
+	s.rec.mu.Unlock()
+	_ = res
+	return res2 + " reader=" + early + " ## gated=" + b2s(gatedRead) + " ok"
+}
+
 func runConc(path string) {
 	f, err := os.Open(path)
 	if err != nil {
@@ -471,6 +532,14 @@ func runConc(path string) {
 			res = guarded(out, func() string { return s.concOp(args, keys) })
 		case args[0] == "iterrace" && s.tree != nil:
 			res = guarded(out, func() string { return s.iterRace() })
+		case args[0] == "getrace" && s.tree != nil:
+			res = guarded(out, func() string {
+				var nv []byte
+				if args[2] != "-" {
+					nv = dec(args[2])
+				}
+				return s.getRace(dec(args[1]), nv)
+			})
 		case args[0] == "pinprune" && s.tree != nil:
 			res = guarded(out, func() string {
 				return "pin ## " + s.pinPrune(atoi(args[1]), atoi(args[2]), args[3], keys)
